@@ -30,7 +30,7 @@ func c04Scope(e *Engine, f *ssa.Function) bool {
 			return true
 		}
 		switch f.Name() {
-		case "compact", "Compact", "HTMLEscape", "getu4", "isValidNumber", "newline", "nonSpace", "foldFunc", "asciiEqualFold", "simpleLetterEqualFold", "unquoteBytes", "unquote":
+		case "compact", "Compact", "HTMLEscape", "getu4", "isValidNumber", "newline", "nonSpace", "foldFunc", "asciiEqualFold", "simpleLetterEqualFold", "unquoteBytes", "unquote", "Indent":
 			return f.Signature.Recv() == nil
 		}
 		return false
